@@ -34,6 +34,13 @@ def main(argv):
             from common import REPO
             tb = traceback.extract_tb(e.__traceback__)
             impl_frames = [f for f in tb if os.path.abspath(f.filename).startswith(str(REPO) + os.sep)]
+            remote_tb = getattr(getattr(e, "__cause__", None), "tb", "") or ""
+            if not impl_frames and (str(REPO) + os.sep) in remote_tb:
+                # the exception was raised by the implementation inside a worker process (concurrent.futures keeps its traceback as text)
+                run.prop_fail("the implementation raised an exception on an input the property quantifies over",
+                              {"exception": repr(e), "where": [l.strip() for l in remote_tb.splitlines() if str(REPO) in l][-3:]},
+                              {"clause": "total"}, remote_tb[-1500:])
+                return run.finish()
             if not impl_frames:
                 # a call in a documented form (positional order / keyword names of the pinned public signature) that the CURRENT
                 # signature of an implementation function rejects is raised by the interpreter before any implementation frame exists
